@@ -19,7 +19,8 @@ extern "C" {
 enum AOp { A_SETKEY, A_SETTWEAK, A_SWAP, A_ENC, A_DEC, A_CLEAR, A_SETIV, A_CENC, A_CDEC, A_NOPS };
 static const char *AOPN[] = {"setKey", "setTweak", "swapModes", "encryptBlock", "decryptBlock", "clear", "setIV", "encrypt", "decrypt"};
 struct Op { int code = 0; uint32_t len = 0; bool null = false, inplace = false; Bytes a; };
-struct Hist { int cls = 0; std::vector<Op> ops; };
+struct Hist { int cls = 0; std::vector<Op> ops;
+              int pre_cls = -1; Bytes pre_key, pre_blk; };     // a companion object of another block-cipher class, keyed and used before (and after) the history: the classes must not share hidden state
 
 // class table: 0-10 block ciphers, 11-15 CTR<T> over the five Skinny-128 classes
 struct ClassInfo { const char *name; int fam; unsigned bs, keylen; bool tweaked; bool ctr; };
@@ -70,6 +71,7 @@ struct CRef {
 
 static Hist make_hist(uint64_t seed, uint64_t run) {
     Rng r(seed, run, "ard"); Hist H; H.cls = run % NCLS; const ClassInfo &ci = CLS[H.cls];
+    { Rng pr(seed, run, "ard-companion"); if (pr.chance(1, 2)) { H.pre_cls = (int)pr.below(11); H.pre_key = pr.bytes(CLS[H.pre_cls].keylen); H.pre_blk = pr.bytes(CLS[H.pre_cls].bs); } }
     int n = 4 + r.below(40); bool keyed = false; Bytes prev_tweak;
     auto rb = [&](size_t k) { Bytes v(k); switch (r.below(8)) { case 0: break; case 1: std::fill(v.begin(), v.end(), 0xFF); break; default: r.fill(v.data(), k); } return v; };
     for (int i = 0; i < n; ++i) {
@@ -108,8 +110,24 @@ static Hist make_hist(uint64_t seed, uint64_t run) {
 struct Finding { std::string kind, msg; int op; };
 static std::string op_str(const Hist &H, const Op &o) { return strf("%s::%s(%s%u byte(s)%s)", CLS[H.cls].name, AOPN[o.code], o.null ? "NULL, " : "", o.len, o.inplace ? ", in place" : ""); }
 
+// E_K(block) for block-cipher class c by the C library (fresh schedule, zero tweak)
+static void ref_encrypt_fresh(int c, const Bytes &key, const uint8_t *in, uint8_t *out) {
+    const ClassInfo &ci = CLS[c];
+    if (ci.fam == 0) { Skinny128TweakedKey_t k; memset(&k, 0, sizeof k); if (ci.tweaked) skinny128_set_tweaked_key(&k, key.data(), key.size()); else skinny128_set_key(&k.ks, key.data(), key.size()); skinny128_ecb_encrypt(out, in, &k.ks); }
+    else if (ci.fam == 1) { Skinny64TweakedKey_t k; memset(&k, 0, sizeof k); if (ci.tweaked) skinny64_set_tweaked_key(&k, key.data(), key.size()); else skinny64_set_key(&k.ks, key.data(), key.size()); skinny64_ecb_encrypt(out, in, &k.ks); }
+    else { MantisKey_t k; memset(&k, 0, sizeof k); mantis_set_key(&k, key.data(), 16, 8, MANTIS_ENCRYPT); mantis_ecb_crypt(out, in, &k); }
+}
 static std::vector<Finding> evaluate(const Hist &H, uint64_t *compared, std::vector<std::string> *trace) {
     std::vector<Finding> F; const ClassInfo &ci = CLS[H.cls];
+    Ard P; bool have_p = H.pre_cls >= 0 && H.pre_cls <= 10;
+    auto companion = [&](const char *when, uint8_t flip) -> bool {
+        uint8_t in[16], oa[16], oc[16]; unsigned bs = CLS[H.pre_cls].bs; for (unsigned q = 0; q < bs; ++q) in[q] = H.pre_blk[q] ^ flip;
+        P.bc->encryptBlock(oa, in); ref_encrypt_fresh(H.pre_cls, H.pre_key, in, oc); ++*compared;
+        if (memcmp(oa, oc, bs) != 0) { F.push_back({"block-mismatch", strf("companion object %s (keyed once, zero tweak) %s the history on %s: Arduino %s, C library %s", CLS[H.pre_cls].name, when, ci.name, hex(oa, bs).c_str(), hex(oc, bs).c_str()), -1}); return false; }
+        if (trace) trace->push_back(strf("companion %s::encryptBlock %s -> %s", CLS[H.pre_cls].name, when, hex(oa, bs).c_str()));
+        return true;
+    };
+    if (have_p) { P = make_ard(H.pre_cls); if (!P.bc->setKey(H.pre_key.data(), H.pre_key.size())) { F.push_back({"return-value", strf("companion %s::setKey refused a key of the right length", CLS[H.pre_cls].name), -1}); return F; } if (!companion("before", 0)) return F; }
     Ard A = make_ard(H.cls); CRef C; memset(&C.k128, 0, sizeof C.k128); memset(&C.k64, 0, sizeof C.k64); memset(&C.km, 0, sizeof C.km);
     const bool ctr64 = ci.ctr && ci.bs == 8;
     if (ci.ctr && !ctr64) { skinny128_ctr_init(&C.ctr); C.ctr_init = true; }
@@ -189,19 +207,21 @@ static std::vector<Finding> evaluate(const Hist &H, uint64_t *compared, std::vec
         }
         if (trace) trace->push_back(strf("#%zu %s %s", i, op_str(H, o).c_str(), note.c_str()));
     }
+    if (have_p && F.empty()) companion("after", 0x5A);
     return F;
 }
 
 static void write_replay(const std::string &path, const Hist &H, uint64_t seed, uint64_t run, const Finding &f) {
     std::ofstream o(path);
     o << "# ardsim replay file\nengine ardsim\nprop C19\nflavour ard\nseed " << seed << "\nrun " << run << "\nexpect " << f.kind << "\nsig " << f.kind << ":" << CLS[H.cls].name << "\n# violation: " << f.msg << "\nclass " << H.cls << "\n";
+    if (H.pre_cls >= 0) o << "companion " << H.pre_cls << " " << hex(H.pre_key) << " " << hex(H.pre_blk) << "\n";
     for (auto &p : H.ops) o << "op " << p.code << " " << p.len << " " << p.null << " " << p.inplace << " " << (p.a.empty() ? "-" : hex(p.a)) << "\n";
 }
 static bool read_replay(const std::string &path, Hist &H) {
     std::ifstream f(path); if (!f) return false; std::string ln;
     while (std::getline(f, ln)) {
         if (ln.empty() || ln[0] == '#') continue; std::istringstream is(ln); std::string t; is >> t;
-        if (t == "class") is >> H.cls; else if (t == "op") { Op o; std::string h; int n, ip; is >> o.code >> o.len >> n >> ip >> h; o.null = n; o.inplace = ip; if (h != "-") o.a = unhex(h); H.ops.push_back(o); }
+        if (t == "class") is >> H.cls; else if (t == "companion") { std::string k, b; is >> H.pre_cls >> k >> b; H.pre_key = unhex(k); H.pre_blk = unhex(b); } else if (t == "op") { Op o; std::string h; int n, ip; is >> o.code >> o.len >> n >> ip >> h; o.null = n; o.inplace = ip; if (h != "-") o.a = unhex(h); H.ops.push_back(o); }
     }
     return !H.ops.empty();
 }
@@ -214,6 +234,9 @@ int main(int argc, char **argv) {
         else if (a == "--workers") nw = atoi(nxt().c_str()); else if (a == "--out") out = nxt(); else if (a == "--replay") replay = nxt(); else if (a == "--tier") tier = nxt(); else if (a == "--outdir") outdir = nxt(); else if (a == "--replaydir") replaydir = nxt();
     }
     SimCPU::install();   // the library objects carry the CPUID trap; no model is set, so the real CPU answers
+    if (argc == 4 && std::string(argv[1]) == "--eval") {     // one history in a process that has run nothing else: exit 1 if it fails
+        Hist H = make_hist(strtoull(argv[2], 0, 10), strtoull(argv[3], 0, 10)); uint64_t c2 = 0; return evaluate(H, &c2, nullptr).empty() ? 0 : 1;
+    }
     if (!replay.empty()) {
         Hist H; if (!read_replay(replay, H)) { fprintf(stderr, "cannot read %s\n", replay.c_str()); return 2; }
         uint64_t cmp = 0; std::vector<std::string> tr; auto F = evaluate(H, &cmp, &tr);
@@ -225,15 +248,23 @@ int main(int argc, char **argv) {
     if (!runs) runs = tier == "thorough" ? 3000000 : 60000;
     if (system(("mkdir -p " + outdir + " " + replaydir).c_str())) {}
     auto t0 = std::chrono::steady_clock::now();
-    uint64_t nruns = 0, compared = 0, nops = 0; std::set<uint64_t> cover; int nsamp = 0;
+    uint64_t nruns = 0, compared = 0, nops = 0, carried_over = 0; std::set<uint64_t> cover; int nsamp = 0;
     PoolResult pr = run_pool(nw, first, runs, outdir + "/C19-" + std::to_string(getpid()),
         [&](uint64_t i, FILE *f) {
             Hist H = make_hist(seed, i); auto F = evaluate(H, &compared, nullptr); ++nruns; nops += H.ops.size();
+            if (!F.empty()) {
+                // does it also fail in a process that has run nothing else?  If not, earlier histories of this worker left state behind
+                // in the classes (hidden state shared between objects): such a failure cannot be replayed from its own history; the
+                // companion-object histories are there to produce the same defect reproducibly
+                fflush(f); pid_t pid = fork(); if (pid == 0) { execl("/proc/self/exe", "ardsim", "--eval", std::to_string(seed).c_str(), std::to_string(i).c_str(), (char *)0); _exit(3); }
+                int st = 0; waitpid(pid, &st, 0);
+                if (!(WIFEXITED(st) && WEXITSTATUS(st) == 1)) { F.clear(); ++carried_over; }
+            }
             int prev = -1; for (auto &o : H.ops) { cover.insert(hash_comb((uint64_t)H.cls << 16 | o.code << 8 | (prev + 1), (uint64_t)(o.len == CLS[H.cls].keylen) << 3 | o.null << 2 | o.inplace << 1 | (o.len == 0))); prev = o.code; }
             if (!F.empty()) { std::string m = F[0].msg; for (char &c : m) if (c == '\t' || c == '\n') c = ' '; fprintf(f, "V %llu\t%s\t%s:%s\t%s\n", (unsigned long long)i, F[0].kind.c_str(), F[0].kind.c_str(), CLS[H.cls].name, m.c_str()); fflush(f); }
             if (nsamp < 1 && H.ops.size() < 12) { ++nsamp; std::string s; for (auto &o : H.ops) s += op_str(H, o) + "; "; fprintf(f, "X run %llu: %s\n", (unsigned long long)i, s.c_str()); }
         },
-        [&](FILE *f) { fprintf(f, "S runs %llu\nS results_compared %llu\nS ops %llu\n", (unsigned long long)nruns, (unsigned long long)compared, (unsigned long long)nops); for (uint64_t h : cover) fprintf(f, "H %016llx\n", (unsigned long long)h); });
+        [&](FILE *f) { fprintf(f, "S runs %llu\nS results_compared %llu\nS ops %llu\nS failures_only_after_other_histories_in_the_same_process %llu\n", (unsigned long long)nruns, (unsigned long long)compared, (unsigned long long)nops, (unsigned long long)carried_over); for (uint64_t h : cover) fprintf(f, "H %016llx\n", (unsigned long long)h); });
     double wall = std::chrono::duration<double>(std::chrono::steady_clock::now() - t0).count();
     std::map<std::string, uint64_t> stats; std::set<std::string> hashes; std::vector<std::string> samples;
     struct RawV { uint64_t run; std::string kind, sig, msg; }; std::vector<RawV> raws;
@@ -251,7 +282,9 @@ int main(int argc, char **argv) {
         if (seen.count(rv.sig) || nfinal >= 6) continue; seen.insert(rv.sig);
         Hist H = make_hist(seed, rv.run); size_t before = H.ops.size(); int trials = 0; uint64_t cmp = 0;
         if (rv.kind != "worker-death") {
-            auto fails = [&](const Hist &Q) { ++trials; auto F = evaluate(Q, &cmp, nullptr); return !F.empty() && F[0].kind == rv.kind; };
+            // every trial in a fresh fork of this (still pristine) process: hidden static state in the classes must not leak from trial to trial
+            auto fails = [&](const Hist &Q) { ++trials; fflush(stdout); fflush(stderr); pid_t pid = fork(); if (pid == 0) { uint64_t c2 = 0; auto F = evaluate(Q, &c2, nullptr); _exit(!F.empty() && F[0].kind == rv.kind ? 1 : 0); } int st = 0; waitpid(pid, &st, 0); return WIFEXITED(st) && WEXITSTATUS(st) == 1; };
+            if (H.pre_cls >= 0) { Hist Q = H; Q.pre_cls = -1; if (fails(Q)) H = Q; }      // is the companion object needed at all?
             if (!fails(H) || !fails(H)) { fprintf(stderr, "ardsim: run %llu does not repeat\n", (unsigned long long)rv.run); ++nondet; continue; }
             size_t n = 2;
             while (H.ops.size() >= 2 && trials < 800) {
@@ -260,12 +293,17 @@ int main(int argc, char **argv) {
                 if (!red) { if (chunk <= 1) break; n = std::min(n * 2, H.ops.size()); }
             }
         }
-        std::vector<std::string> tr; auto Ff = evaluate(H, &cmp, &tr); Finding fnd{rv.kind, rv.msg, -1}; if (!Ff.empty()) fnd = Ff[0];
-        tr.push_back("!! " + fnd.msg);
+        // this process never evaluates a history itself (it must stay pristine for the forked trials): the trace and the
+        // final message come from the replay of the minimised file in a fresh exec
+        std::vector<std::string> tr; Finding fnd{rv.kind, rv.msg, -1};
         std::string path = strf("%s/C19-ard-%llu-%llu.replay", replaydir.c_str(), (unsigned long long)seed, (unsigned long long)rv.run);
         write_replay(path, H, seed, rv.run, fnd);
-        fflush(stdout); pid_t pid = fork(); if (pid == 0) { int fd = open("/dev/null", 1); if (fd >= 0) dup2(fd, 1); execl("/proc/self/exe", "ardsim", "--replay", path.c_str(), (char *)0); _exit(3); }
-        int st = 0; waitpid(pid, &st, 0); bool rep = WIFEXITED(st) && WEXITSTATUS(st) == 1; if (!rep && rv.kind != "worker-death") { fprintf(stderr, "ardsim: replay %s did not reproduce\n", path.c_str()); ++nondet; }
+        int pfd[2]; if (pipe(pfd) != 0) return 2;
+        fflush(stdout); pid_t pid = fork(); if (pid == 0) { close(pfd[0]); dup2(pfd[1], 1); execl("/proc/self/exe", "ardsim", "--replay", path.c_str(), (char *)0); _exit(3); }
+        close(pfd[1]); std::string outp; { char buf[4096]; ssize_t n; while ((n = read(pfd[0], buf, sizeof buf)) > 0) outp.append(buf, (size_t)n); close(pfd[0]); }
+        int st = 0; waitpid(pid, &st, 0); bool rep = WIFEXITED(st) && WEXITSTATUS(st) == 1; if (!rep && rv.kind != "worker-death") { fprintf(stderr, "ardsim: replay %s did not reproduce\n", path.c_str()); ++nondet; continue; }
+        { std::istringstream is(outp); std::string ln; bool next_is_msg = false; while (std::getline(is, ln)) { if (next_is_msg) { size_t q = ln.find_first_not_of(' '); fnd.msg = q == std::string::npos ? ln : ln.substr(q); next_is_msg = false; tr.push_back("!! " + fnd.msg); continue; } if (ln.rfind("REPLAY-VIOLATION", 0) == 0) { next_is_msg = true; continue; } if (ln.rfind("VIOLATION", 0) == 0) continue; if (tr.size() < 80) tr.push_back(ln); } }
+        write_replay(path, H, seed, rv.run, fnd);
         std::string tj = "["; for (size_t i = 0; i < tr.size(); ++i) tj += (i ? "," : "") + jstr(tr[i]); tj += "]";
         vj += strf("%s    {\"inv\": %s, \"sig\": %s, \"run\": %llu, \"op\": %d, \"msg\": %s, \"replay\": %s, \"ops_before\": %zu, \"ops_after\": %zu, \"trials\": %d, \"reproduced_in_fresh_process\": %s, \"occurrences\": %llu, \"trace\": %s}",
                    nfinal ? ",\n" : "", jstr(rv.kind).c_str(), jstr(rv.sig).c_str(), (unsigned long long)rv.run, fnd.op, jstr(fnd.msg).c_str(), jstr(path).c_str(), before, H.ops.size(), trials, rep ? "true" : "false", (unsigned long long)sigc[rv.sig], tj.c_str());
@@ -278,6 +316,8 @@ int main(int argc, char **argv) {
     j += "  \"samples\": ["; for (size_t i = 0; i < samples.size(); ++i) j += (i ? "," : "") + jstr(samples[i]); j += "],\n";
     j += strf("  \"raw_violations\": %zu, \"harness_nondeterminism\": %d,\n  \"violations\": [\n%s\n  ]\n}\n", raws.size(), nondet, vj.c_str());
     if (!out.empty()) { std::ofstream f(out); f << j; } else fputs(j.c_str(), stdout);
-    if (nondet) return 2;
+    // as in objsim/thrsim: a raw violation that does not repeat is a harness fault (exit 2) unless others of the same batch were
+    // confirmed in fresh processes - then hidden state in the classes coupling the histories of one worker is the likely cause
+    if (nondet && nfinal == 0) return 2;
     return nfinal ? 1 : 0;
 }
